@@ -119,8 +119,14 @@ func genC16Delay(g *Gen) *Scn {
 	spec := c16Timeline(g, d, 6)
 	sc.Sources = []SrcSpec{spec}
 	c16Common(g, sc, c16ScriptSpan(spec)+2*d, 1)
+	if sc.Sub == "Delay" && g.Bool(0.3) {
+		sc.SetInt("visitor", g.Range(0, 2*(c16ScriptSpan(spec)+d))) // in half units
+		sc.SetInt("vstay", g.Range(0, 2*d))
+	}
 	return sc
 }
+
+type c16VisitorKey struct{}
 
 func genC16Timeout(g *Gen) *Scn {
 	sc := &Scn{Family: "C16.timeout", Sub: "Timeout"}
@@ -567,12 +573,42 @@ func runC16Delay(e *Env) {
 	spec := sc.Sources[0]
 	src := e.NewSrc(spec)
 	var emits []c16Emit
-	tapped := c16Tap(e, &emits)(src.Obs())
+	// only the judged subscription's emissions are logged: a visiting second subscriber (below) runs the
+	// cold source once more under a context that says so
+	isVisitor := func(ctx context.Context) bool { return ctx != nil && ctx.Value(c16VisitorKey{}) != nil }
+	tapped := ro.TapWithContext(
+		func(ctx context.Context, v int) {
+			if !isVisitor(ctx) {
+				emits = append(emits, c16Emit{K: 'N', V: v, T: e.K.Now(), Step: e.Step()})
+			}
+		},
+		func(ctx context.Context, err error) {
+			if !isVisitor(ctx) {
+				emits = append(emits, c16Emit{K: 'E', Err: err, T: e.K.Now(), Step: e.Step()})
+			}
+		},
+		func(ctx context.Context) {
+			if !isVisitor(ctx) {
+				emits = append(emits, c16Emit{K: 'C', T: e.K.Now(), Step: e.Step()})
+			}
+		},
+	)(src.Obs())
 	var o ro.Observable[int]
 	if sc.Sub == "Delay" {
 		o = ro.Delay[int](d)(tapped)
 	} else {
 		o = ro.DelayEach[int](d)(tapped)
+	}
+	if at := sc.Int("visitor", -1); at >= 0 {
+		// a second subscriber of the same observable comes and goes while the first one is being served:
+		// each subscription has its own timers and its own queue
+		e.Go("visitor", func() {
+			simSleep(time.Duration(at) * Unit / 2)
+			vctx := context.WithValue(context.Background(), c16VisitorKey{}, true)
+			vsub := o.SubscribeWithContext(vctx, ro.NewObserver(func(int) {}, func(error) {}, func() {}))
+			simSleep(time.Duration(sc.Int("vstay", 0)) * Unit / 2)
+			vsub.Unsubscribe()
+		})
 	}
 	rec := e.NewRec("o")
 	s := &c16Session{}
